@@ -9,3 +9,4 @@ KFN int k_to_cp(const char* s, unsigned long n, unsigned* cp, long* consumed, in
 KFN unsigned long k_count_cp(const char* s, unsigned long n) { return unicode_traits::count_codepoints(s, n); }
 KFN int k_cp_to_utf8(unsigned cp, char* buf, unsigned long cap, unsigned long* n) { fsink k{buf, 0, cap}; uint32_t c = cp; auto r = unicode_traits::convert(&c, 1, k); *n = k.n; return (int)r.ec; }
 KFN unsigned long k_escape(const char* s, unsigned long n, int all_non_ascii, int solidus, char* buf, unsigned long cap, unsigned long* written) { fsink k{buf, 0, cap}; unsigned long r = jsoncons::detail::escape_string(s, n, all_non_ascii != 0, solidus != 0, k); *written = k.n; return r; }
+KFN int k_sur_class(unsigned cp) { return (unicode_traits::is_high_surrogate(cp) ? 1 : 0) | (unicode_traits::is_low_surrogate(cp) ? 2 : 0) | (unicode_traits::is_surrogate(cp) ? 4 : 0); }
